@@ -13,6 +13,8 @@ func main() {
 	switch os.Args[1] {
 	case "core": // core <prop> <export-file> <result-json>
 		os.Exit(runCore(os.Args[2:]))
+	case "core-path": // core-path <prop> <export-file> <result-json>
+		os.Exit(runCorePath(os.Args[2:]))
 	case "drive-core": // drive-core <prop> <seed> <ntraces> <out.ndjson>
 		os.Exit(runDriveCore(os.Args[2:]))
 	case "drive-cli": // drive-cli <prop> <seed> <first> <count> <out.ndjson>
